@@ -351,6 +351,9 @@ def c04(mon, s):
     rate = float(ec.FixedInternalRate.value) / 100.0
     disc_first = bool(ec.discount_initial_year_cashflow.value)
     mon.note('c04-npv-convention:' + ('excel' if disc_first else 'plain'))
+    if any(v != v for v in cash):
+        mon.note('c04-cash-flow-series-with-nan')          # no figure to compare (a run whose energy came out NaN)
+        return
     npv_want = R.npv(rate, cash, disc_first)
     scale = math.fsum(abs(v) for v in cash) or 1.0
     mon.check('npv', abs(float(ec.ProjectNPV.value) - npv_want) <= 1e-9 * scale, mechanism='C04/npv-not-of-reported-series',
@@ -449,6 +452,9 @@ def _c04_addons(mon, s, cfg):
     rate = float(ae.FixedInternalRate.value) / 100.0
     disc_first = bool(ae.discount_initial_year_cashflow.value)
     scale = math.fsum(abs(v) for v in pcf) or 1.0
+    if any(v != v for v in pcf):
+        mon.note('c04-cash-flow-series-with-nan')
+        return
     npv_want = R.npv(rate, pcf, disc_first)
     mon.check('addon-npv', abs(float(ae.ProjectNPV.value) - npv_want) <= 1e-9 * scale, mechanism='C04/addon-npv',
               got=float(ae.ProjectNPV.value), want=npv_want)
